@@ -9,6 +9,8 @@ func (c *Conversation) processDisconnectedTLV(t tlv, x dataMessageExtra) (toSend
 	c.lastMessageStateChange = time.Time{}
 	c.msgState = finished
 	c.smp.wipe()
+	// a key exchange in progress is abandoned with the session: erase its ephemeral secrets
+	c.ake.wipe(true)
 	c.ake = nil
 	// the last message of the ended session must not be resent in a later one
 	c.resend.clear()
